@@ -31,6 +31,7 @@ type c18Scenario struct {
 	same   bool // every record of a container carries the same message (samples share a series)
 	ties   bool // records of different containers share timestamps (rendering is then not compared)
 	labels func(i int) map[string]string
+	msg    func(i, j int) string // message of record j of container i (default: m<i>-<j>)
 	query  string
 	params logqlengine.EvalParams
 }
@@ -66,6 +67,16 @@ var c18Scenarios = []c18Scenario{
 	{name: "log-dropmsg-3", n: 3, query: `{} | drop msg, container_id`, params: c18Log()},
 	{name: "count-samemsg-2", n: 2, same: true, query: `count_over_time({}[4s])`, params: c18Range()},
 	{name: "max-samemsg-2", n: 2, same: true, query: `max(count_over_time({}[4s])) by (container, msg)`, params: c18Range()},
+	// one series is NaN: whatever max/min make of it, they make the same of it in every arrival order
+	{name: "max-nan-3", n: 3, msg: c18NaNMsg, query: `max(sum_over_time({} | logfmt | drop msg | unwrap v [4s]))`, params: c18Range()},
+	{name: "min-nan-3", n: 3, msg: c18NaNMsg, query: `min(sum_over_time({} | logfmt | drop msg | unwrap v [4s]))`, params: c18Range()},
+}
+
+func c18NaNMsg(i, j int) string {
+	if i == 1 {
+		return "v=NaN"
+	}
+	return fmt.Sprintf("v=%d", 1+i+j)
 }
 
 func c18ByName(n string) c18Scenario {
@@ -78,6 +89,9 @@ func c18ByName(n string) c18Scenario {
 }
 
 func c18Msg(sc c18Scenario, i, j int) string {
+	if sc.msg != nil {
+		return sc.msg(i, j)
+	}
 	if sc.same {
 		return "same"
 	}
